@@ -81,6 +81,7 @@ type RunResult struct {
 	Trusted   []string
 	Axioms    []string
 	Inputs    []string // preconditions of exported methods: input assumptions granted by the property's quantifier text
+	Locals    map[string][]sym.LocalInfo // parameters and locals of the functions under contract (for the baseline)
 }
 
 func kindOf(name string) string {
@@ -270,6 +271,10 @@ func genModule(pkgs []*packages.Package, m *Module, byName map[string]*Module, o
 		if rep.Trusted {
 			rr.Trusted = append(rr.Trusted, m.Name+": "+rep.Func+" (contract assumed, not verified)")
 		}
+		if rr.Locals == nil {
+			rr.Locals = map[string][]sym.LocalInfo{}
+		}
+		rr.Locals[rep.Func] = e.LocalsOf(target.PkgPath, key)
 		if fs := e.Specs[target.PkgPath].Funcs[key]; fs != nil && !strings.Contains(key, ".") && key != "" && key[0] >= 'A' && key[0] <= 'Z' {
 			for _, c := range fs.Clauses {
 				if c.Kind == "requires" {
